@@ -547,9 +547,14 @@ class AbstractWorker:
         :param err: Exception that was raised
         :return: Tuple containing the exception type, args, state, and a traceback string
         """
-        # Create traceback string
+        # Create traceback string. Formatting the arguments calls their repr(), which is user code that can fail. That
+        # shouldn't prevent us from reporting the actual exception
+        try:
+            formatted_args = self._format_args(args)
+        except Exception as format_err:
+            formatted_args = f"<arguments could not be formatted: {type(format_err).__name__}>"
         traceback_str = f"\n\nException occurred in Worker-{self.worker_id} with the following arguments:\n" \
-                        f"{self._format_args(args)}\n{traceback.format_exc()}"
+                        f"{formatted_args}\n{traceback.format_exc()}"
 
         # Sometimes an exception cannot be pickled (i.e., we get the _pickle.PickleError: Can't pickle
         # <class ...>: it's not the same object as ...). We check that here by trying the pickle.dumps manually.
